@@ -541,8 +541,43 @@ def rule_tt2_memory_units(report, prog, rule='C01-R6'):
     report.floor(rule, n, 8)
 
 
+def rule_t3_identity(report, prog, rule='C01-R7'):
+    """Type 3 Tag: commands are addressed with the IDm of the *system* that was polled last.  Wherever a routine switches the tag
+    object to another system code it takes IDm and PMm from the answer of that very polling command (a card with several systems
+    answers each with its own IDm) -- the three are updated together, the polling first."""
+    n = 0
+    for q, f in sorted(prog.functions.items()):
+        if not q.startswith(('nfc.tag.tt3.', 'nfc.tag.tt3_sony.')) or f.name == '__init__':
+            continue
+        stores = [st for st in walk_no_nested(f.node) if isinstance(st, ast.Assign) and any(
+            isinstance(t, ast.Attribute) and t.attr == 'sys' for t in st.targets)]
+        if not stores:
+            continue
+        cfg = cfg_of(f)
+        for st in stores:
+            n += 1
+            obj = norm([t for t in st.targets if isinstance(t, ast.Attribute) and t.attr == 'sys'][0].value)
+            polls = [a for a in walk_no_nested(f.node) if isinstance(a, ast.Assign) and isinstance(a.value, ast.Call) and
+                     isinstance(a.value.func, ast.Attribute) and a.value.func.attr == 'polling' and isinstance(a.targets[0], ast.Tuple)
+                     and len(a.targets[0].elts) == 2]
+            okk = False
+            for a in polls:
+                t0, t1 = a.targets[0].elts
+                direct = norm(t0) == obj + '.idm' and norm(t1) == obj + '.pmm'
+                via = isinstance(t0, ast.Name) and isinstance(t1, ast.Name) and \
+                    bool(find(f.node, '%s.idm = %s' % (obj, t0.id))) and bool(find(f.node, '%s.pmm = %s' % (obj, t1.id)))
+                same_code = a.value.args and norm(a.value.args[0]) == norm(st.value)
+                if (direct or via) and same_code and cfg.dominates(cfg.node_of(a), cfg.node_of(st)):
+                    okk = True
+            report.check(okk, rule, key(f.qname, 'system code, IDm and PMm are switched together from one polling answer', st), f.loc(st),
+                         '%s sets %s.sys without taking IDm / PMm from the polling answer for that system: later commands carry the IDm of '
+                         'another system and the card refuses them' % (f.qname, obj))
+    report.floor(rule, n, 2)
+
+
 def run(report, prog, tier):
     rule_emulation_limits(report, prog)
+    rule_t3_identity(report, prog)
     rule_tt4_layout(report, prog)
     rule_tt2_memory_units(report, prog)
     from .c03 import rule_control_tlv_dispatch
@@ -559,6 +594,7 @@ def run(report, prog, tier):
 
 
 MUTANTS = [
+    ('tt3-ndef-system-keeps-old-idm', 'nfc.tag.tt3', "                    self.tag.idm, self.tag.pmm = self._tag.polling(0x12FC)\n", "                    self._tag.polling(0x12FC)\n", 'C01-R7'),
     ('capacity-gate-dropped', 'nfc.tag', """            if len(data) > self.capacity:
                 raise ValueError("data length exceeds tag capacity")
 """, "", 'C01-R1'),
